@@ -108,6 +108,38 @@ theorem mem_trim_of_ne (m : Nat) (xs : List String) (x : String) (h : x ∈ xs) 
   unfold trim
   exact List.mem_reverse.mpr (trimRev_keeps m _ x (List.mem_reverse.mpr h) hne)
 
+theorem trimRev_suffix (m : Nat) (xs : List String) : trimRev m xs <:+ xs := by
+  induction xs with
+  | nil => exact List.suffix_refl _
+  | cons x rest ih =>
+    simp only [trimRev]
+    split
+    · exact List.IsSuffix.trans ih (List.suffix_cons _ _)
+    · exact List.suffix_refl _
+
+theorem trimRev_dropped (m : Nat) (xs : List String) :
+    ∃ k, xs = List.replicate k "" ++ trimRev m xs := by
+  induction xs with
+  | nil => exact ⟨0, rfl⟩
+  | cons x rest ih =>
+    simp only [trimRev]
+    split
+    · rename_i hc
+      obtain ⟨k, hk⟩ := ih
+      refine ⟨k + 1, ?_⟩
+      rw [List.replicate_succ, List.cons_append, ← hk, hc.1]
+    · exact ⟨0, rfl⟩
+
+theorem trimRev_min (m : Nat) (xs : List String) (h : m ≤ xs.length) :
+    m ≤ (trimRev m xs).length := by
+  induction xs with
+  | nil => simpa [trimRev] using h
+  | cons x rest ih =>
+    simp only [trimRev]
+    split
+    · rename_i hc; apply ih; omega
+    · simpa using h
+
 /-! ## the singleton scope -/
 
 theorem lookupR_append (sc : ScopeL) (r0 : Ref) (k : String) (r : Ref) :
@@ -202,6 +234,38 @@ theorem key_det {β} (items : List (String × β)) (hnd : (items.map (fun p => p
     · exfalso; apply hnd.1; rw [← hb]; exact List.mem_map.mpr ⟨(k, a), ha, rfl⟩
     · exact ih hnd.2 ha hb
 
+/-- `scope.var[var] = key` never raises: the names already given are keys of earlier items, and
+    keys are pairwise distinct -/
+theorem scopeClash_false (items : List (String × Ref)) : ∀ (sc : ScopeL),
+    (items.map (fun p => p.1)).Nodup →
+    (∀ e ∈ sc, e.2 ∉ items.map (fun p => p.1)) →
+    scopeClash items sc = false := by
+  induction items with
+  | nil => intro sc _ _; rfl
+  | cons e rest ih =>
+    obtain ⟨k, r⟩ := e
+    intro sc hnd hsc
+    simp only [List.map_cons, List.nodup_cons] at hnd
+    simp only [scopeClash]
+    cases hl : lookupR sc r with
+    | some x =>
+      simp only
+      exact ih sc hnd.2 (fun e he hm => hsc e he (List.mem_cons_of_mem _ hm))
+    | none =>
+      simp only [Bool.or_eq_false_iff]
+      constructor
+      · rw [List.any_eq_false]
+        intro e he
+        have := hsc e he
+        simp only [List.map_cons, List.mem_cons, not_or] at this
+        simpa using this.1
+      · apply ih _ hnd.2
+        intro e he
+        rcases List.mem_append.mp he with he | he
+        · exact fun hm => hsc e he (List.mem_cons_of_mem _ hm)
+        · simp only [List.mem_singleton] at he
+          rw [he]; exact hnd.1
+
 /-! ## well-formedness of a call's field keys -/
 
 structure WF (c : Call) : Prop where
@@ -290,6 +354,40 @@ theorem sigmaOf_empty (nm : Ref → String) (c : Call) (hg : GoodNames nm c) : s
     have hp := List.find?_some hf
     simp only [beq_iff_eq] at hp
     exact absurd hp (hg.ne r' hmem)
+
+/-- a naming that is good for every call (tally marks): good namings exist, so the theorems
+    quantifying over them are never vacuous -/
+def tally (tag : Char) (n : Nat) : String := String.ofList (tag :: List.replicate n '|')
+
+def tallyNames : Ref → String
+  | .inp v => tally 'i' v
+  | .out i => tally 'o' i
+
+theorem tally_inj (t1 t2 : Char) (a b : Nat) (h : tally t1 a = tally t2 b) : t1 = t2 ∧ a = b := by
+  unfold tally at h
+  have h' := String.ofList_injective h
+  simp only [List.cons.injEq] at h'
+  refine ⟨h'.1, ?_⟩
+  have := congrArg List.length h'.2
+  simpa using this
+
+theorem tally_ne (t : Char) (a : Nat) : tally t a ≠ "" := by
+  unfold tally
+  intro h
+  have := congrArg String.toList h
+  simp at this
+
+theorem goodNames_tally (c : Call) : GoodNames tallyNames c where
+  inj := by
+    intro r1 _ r2 _ h
+    cases r1 <;> cases r2 <;> simp only [tallyNames] at h
+    · rw [(tally_inj _ _ _ _ h).2]
+    · exact absurd (tally_inj _ _ _ _ h).1 (by decide)
+    · exact absurd (tally_inj _ _ _ _ h).1 (by decide)
+    · rw [(tally_inj _ _ _ _ h).2]
+  ne := by
+    intro r _
+    cases r <;> exact tally_ne _ _
 
 /-! ## membership plumbing for `flat`, `inPairs`, `outPairs`, `items` -/
 
